@@ -323,12 +323,17 @@ class ImplWorld:
                 hk = parse_hooks(hooks)
                 holder = {"g": None}
                 f = self.mkworker(ctx, wm, sw == "1", hk["s"], holder, coro == "1")
-                pool = SimpleTaskPool(f, args=(1, 2, 3) if bad == "1" else (7,), kwargs={"k": 1}, pool_size=ps, name=name,
-                                      end_callback=self.mkcb(ctx, "end", ecb, hk["e"], holder),
-                                      cancel_callback=self.mkcb(ctx, "cancel", ccb, hk["c"], holder))
+                ecb_f = self.mkcb(ctx, "end", ecb, hk["e"], holder)
+                ccb_f = self.mkcb(ctx, "cancel", ccb, hk["c"], holder)
+                a = (1, 2, 3) if bad == "1" else (7,)
+                if len(self.pools) % 2:     # every other SimpleTaskPool is constructed with positional arguments
+                    pool = SimpleTaskPool(f, a, {"k": 1}, ecb_f, ccb_f, ps, name)
+                else:
+                    pool = SimpleTaskPool(f, args=a, kwargs={"k": 1}, pool_size=ps, name=name,
+                                          end_callback=ecb_f, cancel_callback=ccb_f)
                 ctx.simple_holder = holder
             else:
-                pool = TaskPool(pool_size=ps, name=name)
+                pool = TaskPool(ps, name) if len(self.pools) % 2 else TaskPool(pool_size=ps, name=name)
         except (X.PoolException, ValueError) as e:
             return "err:" + type(e).__name__
         ctx.pool = pool
@@ -369,9 +374,14 @@ class ImplWorld:
                 holder = {"g": None}
                 f = self.mkworker(ctx, wm, sw == "1", hk["s"], holder, coro == "1")
                 args = (1, 2, 3) if bad == "1" else (7,)
-                name = p.apply(f, args=args, kwargs={"k": 1}, num=int(num), group_name=None if g == "-" else g,
-                               end_callback=self.mkcb(ctx, "end", ecb, hk["e"], holder),
-                               cancel_callback=self.mkcb(ctx, "cancel", ccb, hk["c"], holder))
+                ecb_f = self.mkcb(ctx, "end", ecb, hk["e"], holder)
+                ccb_f = self.mkcb(ctx, "cancel", ccb, hk["c"], holder)
+                ctx.ncalls = getattr(ctx, "ncalls", 0) + 1
+                if ctx.ncalls % 2:          # every other request passes everything by position, in signature order
+                    name = p.apply(f, args, {"k": 1}, int(num), None if g == "-" else g, ecb_f, ccb_f)
+                else:
+                    name = p.apply(f, args=args, kwargs={"k": 1}, num=int(num), group_name=None if g == "-" else g,
+                                   end_callback=ecb_f, cancel_callback=ccb_f)
                 holder["g"] = name
                 ctx.nreq += 1
                 res = "name:" + name
@@ -409,29 +419,40 @@ class ImplWorld:
                         else:
                             yield {0: i, 1: (i, 2), 2: {"x": i, "s": 3}}[stars]
                 meth = {0: p.map, 1: p.starmap, 2: p.doublestarmap}[stars]
-                name = meth(f, gen(), num_concurrent=int(nc), group_name=None if g == "-" else g,
-                            end_callback=self.mkcb(ctx, "end", ecb, hk["e"], holder),
-                            cancel_callback=self.mkcb(ctx, "cancel", ccb, hk["c"], holder))
+                ecb_f = self.mkcb(ctx, "end", ecb, hk["e"], holder)
+                ccb_f = self.mkcb(ctx, "cancel", ccb, hk["c"], holder)
+                ctx.ncalls = getattr(ctx, "ncalls", 0) + 1
+                if ctx.ncalls % 2:          # every other request passes everything by position, in signature order
+                    name = meth(f, gen(), int(nc), None if g == "-" else g, ecb_f, ccb_f)
+                else:
+                    name = meth(func=f, num_concurrent=int(nc), group_name=None if g == "-" else g,
+                                end_callback=ecb_f, cancel_callback=ccb_f,
+                                **{{0: "arg_iter", 1: "args_iter", 2: "kwargs_iter"}[stars]: gen()})
                 holder["g"] = name
                 ctx.nreq += 1
                 res = "name:" + name
                 if name not in ctx.names:
                     ctx.names.append(name)
             elif k == "start":
-                name = p.start(int(toks[1]))
+                ctx.ncalls = getattr(ctx, "ncalls", 0) + 1
+                name = p.start(int(toks[1])) if ctx.ncalls % 2 else p.start(num=int(toks[1]))
                 ctx.nreq += 1
                 res = "name:" + name
                 if name not in ctx.names:
                     ctx.names.append(name)
             elif k == "stop":
-                res = "ids:" + "/".join(str(i) for i in p.stop(int(toks[1])))
+                ctx.ncalls = getattr(ctx, "ncalls", 0) + 1
+                res = "ids:" + "/".join(str(i) for i in (p.stop(int(toks[1])) if ctx.ncalls % 2 else p.stop(num=int(toks[1]))))
             elif k == "stop_all":
                 res = "ids:" + "/".join(str(i) for i in p.stop_all())
             elif k == "cancel":
                 p.cancel(*[int(x) for x in toks[1:]], **self.cancel_kw(ctx))
             elif k == "cancel_group":
                 kw = self.cancel_kw(ctx)
-                self.cancel_order_call(ctx, lambda: p.cancel_group(toks[1], **kw))
+                if kw:
+                    self.cancel_order_call(ctx, lambda: p.cancel_group(group_name=toks[1], **kw))
+                else:
+                    self.cancel_order_call(ctx, lambda: p.cancel_group(toks[1]))
             elif k == "cancel_all":
                 kw = self.cancel_kw(ctx)
                 self.cancel_order_call(ctx, lambda: p.cancel_all(**kw))
@@ -444,9 +465,13 @@ class ImplWorld:
             elif k == "get_ids":
                 res = "set:" + "/".join(str(i) for i in sorted(p.get_group_ids(*toks[1:])))
             elif k == "flush":
-                ctx.apis.append(self.loop.create_task(p.flush(return_exceptions=toks[1] == "1")))
+                ctx.ncalls = getattr(ctx, "ncalls", 0) + 1
+                ctx.apis.append(self.loop.create_task(p.flush(toks[1] == "1") if ctx.ncalls % 2 else
+                                                      p.flush(return_exceptions=toks[1] == "1")))
             elif k == "gac":
-                ctx.apis.append(self.loop.create_task(p.gather_and_close(return_exceptions=toks[1] == "1")))
+                ctx.ncalls = getattr(ctx, "ncalls", 0) + 1
+                ctx.apis.append(self.loop.create_task(p.gather_and_close(toks[1] == "1") if ctx.ncalls % 2 else
+                                                      p.gather_and_close(return_exceptions=toks[1] == "1")))
             elif k == "until_closed":
                 ctx.apis.append(self.loop.create_task(p.until_closed()))
             elif k == "gate":
